@@ -2341,6 +2341,30 @@ thread_main_handle_connection (void *data)
             _ ("Processing thread terminating. Closing connection.\n"));
 #endif
 #endif
+  /* The thread may leave the loop because of the daemon shutdown while the
+   * connection is still in the "suspended" list: the application has already
+   * called MHD_resume_connection(), but the daemon thread has not processed
+   * the resume yet.  Take the connection back here: MHD_connection_handle_idle()
+   * does nothing for a suspended connection, nobody else would move it to the
+   * cleanup list and close_all_connections() would spin forever on it. */
+  MHD_mutex_lock_chk_ (&daemon->cleanup_connection_mutex);
+  if ( (con->suspended) &&
+       (con->resuming)
+#ifdef UPGRADE_SUPPORT
+       && (NULL == con->urh)
+#endif /* UPGRADE_SUPPORT */
+       )
+  {
+    DLL_remove (daemon->suspended_connections_head,
+                daemon->suspended_connections_tail,
+                con);
+    con->suspended = false;
+    con->resuming = false;
+    DLL_insert (daemon->connections_head,
+                daemon->connections_tail,
+                con);
+  }
+  MHD_mutex_unlock_chk_ (&daemon->cleanup_connection_mutex);
   if (MHD_CONNECTION_CLOSED != con->state)
     MHD_connection_close_ (con,
                            (daemon->shutdown) ?
